@@ -107,3 +107,43 @@ func verifC19Algebra(maxLen int) {
 
 func VerifHarness_C19_Algebra_1() { verifC19Algebra(1) }
 func VerifHarness_C19_Algebra_2() { verifC19Algebra(2) }
+
+// C19-O1b: the complement law on real regular expressions: a pool of pattern
+// shapes (optional and counted groups, alternation, anchors, classes, case
+// folding) against a pool of lines, through the real regexp package.
+var verifRePatterns = []string{
+	`x+y?[0-9]`, `(?:connection ){0,2}reset`, `(?:abc){0,}d`, `(?:abc)?d`, `(?:abc)*d`, `abc|d`, `^GET`, `error$`,
+	`(?i)error`, `[a-c]{2,3}z`, `a.c`, `(foo|bar)+baz`, `\bid=\d+`, `(?:timeout){1,2}`, `.*`, `.+`, ``,
+}
+
+var verifReLines = []string{
+	"", "d", "abcd", "reset by peer", "connection reset", "GET /", " GET", "ERROR", "an error", "error", "x1", "xy", "abz", "a\nc",
+	"foobarbaz", "baz", "id=42", "pid=4x", "timeouttimeout", "time", "\xff\xfe", "d\n",
+}
+
+func VerifHarness_C19_RegexPool() {
+	pat := verifRePatterns[vsymChoice("pattern", len(verifRePatterns))]
+	line := verifReLines[vsymChoice("line", len(verifReLines))]
+	re := regexp.MustCompile(pat)
+	anch := regexp.MustCompile("^(?:" + pat + ")$")
+	set := newLabelSet()
+	set.Set("a", pcommon.NewValueStr(line))
+	mk := func(op logql.BinOp) (Processor, Processor) {
+		lf, err := buildLineFilter(&logql.LineFilter{Op: op, Value: pat, Re: re})
+		vsymAssert(err == nil, "line filter builds")
+		lm, err := buildLabelMatcher(logql.LabelMatcher{Label: "a", Op: op, Value: pat, Re: anch})
+		vsymAssert(err == nil, "label matcher builds")
+		return lf, lm
+	}
+	posL, posM := mk(logql.OpRe)
+	negL, negM := mk(logql.OpNotRe)
+	_, k1 := posL.Process(1, line, set)
+	_, k2 := negL.Process(1, line, set)
+	vsymAssert(k1 != k2, "exactly one of |~ r and !~ r keeps a line")
+	vsymAssert(k1 == re.MatchString(line), "|~ r keeps exactly the lines r matches")
+	_, k3 := posM.Process(1, "l", set)
+	_, k4 := negM.Process(1, "l", set)
+	vsymAssert(k3 != k4, "exactly one of =~ r and !~ r keeps a record")
+	vsymAssert(k3 == anch.MatchString(line), "=~ r is a fully anchored match")
+	vsymReach("C19_regex_pool")
+}
